@@ -95,7 +95,7 @@ def scenarios() -> list[tuple]:
         initiators = ["O", *path, "offline"]
         # phases: ("build", k) trigger after k datagrams of the handshake were delivered; "ready"; "transfer"
         build_msgs = {1: 2, 2: 6, 3: 12}[h]
-        phases = [("build", k) for k in range(1, build_msgs)] + [("ready", 0), ("transfer", 0)]
+        phases = [("build", k) for k in range(1, build_msgs)] + [("ready", 0), ("transfer", 0), ("first-data", 0)]
         for ini in initiators:
             for ph in phases:
                 out.append((h, ini, ph))
@@ -133,6 +133,10 @@ def run_one(scn: tuple, faults: dict[int, str], seed: int):  # noqa: ANN201
         # who holds what right now (white box): the initiator tears down whatever entry it has for this circuit
         plan.arm()
         t0 = w.loop.time()
+        if phase == "first-data":
+            # the very first data cell of the circuit is sent just before the teardown (a fault may let the
+            # destroy overtake it, so that the exit socket is opened while its removal is already under way)
+            w.send_out("O", c, ("9.9.9.9", 99), BT_PAYLOAD)
         did = _teardown(w, ini, cid)
         T = deadline(ov["O"].settings)
         w.run_for(T)
